@@ -252,3 +252,46 @@ def value_tol(method, grids, x, vmax):
     """
     nd = len(grids)
     return 32.0 * nd * EPS * kappa(method, grids, x) * vmax
+
+
+def deriv_expanded_roundoff(method, grids, x, vmax, semi=False):
+    """Extra absolute round-off, per axis, of the d/dx formulas that are written in EXPANDED absolute coordinates.
+
+    The general (N-D) lagrange tables evaluate the value in node-relative products (x - p_j), but the derivative
+    along the table's own axis as
+        lagrange3 (structured and semi-structured):  sum_a q_a * (3x^2 - 2x(p_b+p_c+p_d) + p_b p_c + p_b p_d + p_c p_d)
+        lagrange2 (structured only)               :  sum_a q_a * (2x - p_b - p_c)
+    with q_a = v_a / prod_b (p_a - p_b).  The terms of the bracket are O(x^2) (O(x)) while the bracket itself is
+    O(h^2) (O(h)): on a grid far from the origin ((|x|/h)^2 >> 1) the bracket cancels and carries
+    eps * (sum of the absolute values of its terms).  Bound: 16 flops on operands bounded by
+    kappa_other * vmax * A_a / den_a, summed over the stencil, worst candidate stencil; kappa (all axes) bounds the
+    sub-table values q_a is built from and the outer axes' amplification of this axis' derivative.
+    Methods that do not use such a form get 0.
+    """
+    nd = len(grids)
+    out = np.zeros(nd)
+    if method == 'lagrange3':
+        k = 4
+    elif method == 'lagrange2' and not semi:
+        k = 3
+    else:
+        return out
+    kap = kappa(method, grids, x)
+    for d in range(nd):
+        g = np.asarray(grids[d], dtype=float)
+        xd = abs(float(x[d]))
+        worst = 0.0
+        for s in _windows(g, float(x[d]), k):
+            p = np.abs(g[s:s + k])
+            tot = 0.0
+            for a in range(k):
+                o = [p[j] for j in range(k) if j != a]
+                den = np.prod([abs(g[s + a] - g[s + j]) for j in range(k) if j != a])
+                if k == 4:
+                    A = 3.0 * xd * xd + 2.0 * xd * sum(o) + o[0] * o[1] + o[0] * o[2] + o[1] * o[2]
+                else:
+                    A = 2.0 * xd + sum(o)
+                tot += A / den
+            worst = max(worst, tot)
+        out[d] = 16.0 * EPS * kap * vmax * worst
+    return out
